@@ -37,7 +37,7 @@ RULE = (
     "with/without `from __future__ import annotations`, five creation APIs; transformers of size 0-5; dataclass "
     "layouts (required / default / default_factory, plain class or real @dataclass); each definition is exercised by "
     "several fresh instances, each with a positional/keyword split at construction and another at call (thorough: "
-    "every valid split pair for arity <= 3), plus clashes, unknown keys, too many positionals, missing arguments and "
+    "every valid split pair for arity <= 4), plus clashes, unknown keys, too many positionals, missing arguments and "
     "a repeated call; non-trivial = at least one run returned a value"
 )
 TRUSTED = [
@@ -359,7 +359,8 @@ def gen_xf_case(rng, tier, idx, kind=None, n=None):
             spec = []
             for x in names:
                 ann = rng.choice([None, "int", "str", "bool"])  # the specification must be hashable
-                spec.append([x, ann, ctr.fresh(rng, ann) if rng.random() < 0.4 else None])
+                d = ctr.fresh(rng, ann or rng.choice(["int", "str", "None"])) if rng.random() < 0.4 else None
+                spec.append([x, ann, d])
             case["spec"] = spec
             case["spec_form"] = "dict"
         params = [{"name": x, "ann": a, "default": d} for x, a, d in case["spec"]]
@@ -431,16 +432,16 @@ def gen_cases(rng, tier):
     if tier == "quick":
         nfn, nxf = 700, 300
     else:
-        nfn, nxf = 2600, 900
+        nfn, nxf = 12000, 4000
     for i in range(nfn):
         yield gen_fn_case(rng, tier, i)
     for i in range(nxf):
         yield gen_xf_case(rng, tier, i)
     if tier == "thorough":
-        # every valid split at construction x every valid split at call, arity <= 3 (225 pairs at arity 3)
+        # every valid split at construction x every valid split at call, arity <= 4 (225 pairs at arity 3, 961 at 4)
         j = 0
-        for n in (0, 1, 2, 3):
-            for _ in range(4 if n < 3 else 6):
+        for n in (0, 1, 2, 3, 4):
+            for _ in range({0: 2, 1: 4, 2: 6, 3: 10, 4: 2}[n]):
                 yield gen_fn_case(rng, tier, 100000 + j, n=n, exhaustive=True)
                 j += 1
         # every transformer kind x every size 0..5
@@ -607,9 +608,10 @@ def _variant():
         from pyiron_workflow.channels import NOT_DATA
         from pyiron_workflow.nodes import transform as T
 
-        @dataclass
-        class _ProbeC17:
-            z: list = field(default_factory=list)
+        import dataclasses
+
+        # (make_dataclass: this module uses postponed annotations, a class statement here would carry string hints)
+        _ProbeC17 = dataclasses.make_dataclass("_ProbeC17", [("z", list, field(default_factory=list))])
 
         try:
             recast = 1 if T.as_dataclass_node(_ProbeC17)().inputs.z.value is NOT_DATA else 0
